@@ -197,16 +197,34 @@ class Source:
         self.term2 = term2
 
     def value_at(self, I, j):
+        """(loop-variable value, binds): element components are fresh constants bound to T.at(j)"""
+        ctx = I.ctx
+        binds = []
+
+        def bound(term, idx, tag):
+            real = term.at(idx)
+            consts = I.elem_map(real, lambda p: ctx.fresh_const("x" + tag, p.sort()))
+            for cst, r in zip(I.elem_parts(consts), I.elem_parts(real)):
+                binds.append((cst, r))
+                ctx.assume(cst == r)
+            return consts
+
         if self.kind == "plain":
-            return self.term.at(j)
+            return bound(self.term, j, ""), binds
         if self.kind == "enumerate":
-            return (bm.arith(I, "+", j, self.start) if self.start != 0 else j, self.term.at(j))
+            return (bm.arith(I, "+", j, self.start) if self.start != 0 else j, bound(self.term, j, "")), binds
         if self.kind == "range":
-            return bm.arith(I, "+", j, self.start) if self.start != 0 else j
+            return (bm.arith(I, "+", j, self.start) if self.start != 0 else j), binds
         if self.kind == "adjzip":
-            return (self.term.at(j), self.term.at(j + 1))
+            a = bound(self.term, j, "a")
+            self.n_a = len(binds)
+            b = bound(self.term, j + 1, "b")
+            return (a, b), binds
         if self.kind == "zip":
-            return (self.term.at(j), self.term2.at(j))
+            a = bound(self.term, j, "a")
+            self.n_a = len(binds)
+            b = bound(self.term2, j, "b")
+            return (a, b), binds
         raise Unsupported(self.kind)
 
     def register(self, I, j, cond=core.TRUE):
@@ -300,9 +318,16 @@ def classify_iterable(I, it):
 def source_term(I, src):
     if src.kind in ("plain", "enumerate"):
         return src.term
+    hc = I.ctx.hc
     if src.kind == "range":
-        return IndexSpace(I, src.term, 0)
-    return PairSpace(I, src)
+        key = ("range", to_z3(src.term).sexpr())
+        if key not in hc:
+            hc[key] = IndexSpace(I, src.term, 0)
+        return hc[key]
+    key = ("pairs", src.kind, id(src.term), id(src.term2))
+    if key not in hc:
+        hc[key] = PairSpace(I, src)
+    return hc[key]
 
 
 def subst_value(I, v, pairs):
@@ -361,12 +386,14 @@ def explore_body(I, src, run_body, acc_names, poisoned, env, want_updates=()):
     parent = I.ctx
     sterm = source_term(I, src)
     ex = parent.ex.child(parent)
+    parent.ground()
     # snapshot of the (shared) term registries so that child-path members/facts can be rolled back
     terms = list(parent.terms)
     snap = [(t, len(t.members), len(t.all_facts), len(t.pair_facts), len(t.adj_facts),
              len(getattr(t, "_mapped", []))) for t in terms]
     results = []
     jname = []
+    bindl = []
     saved_frozen = I.frozen_owner
     saved_depth = I.call_depth
 
@@ -397,9 +424,11 @@ def explore_body(I, src, run_body, acc_names, poisoned, env, want_updates=()):
             recs[n] = r
             cenv.vars[n] = r
         kind, exc = "normal", None
+        value, binds = src.value_at(I, j)
+        bindl.append(binds)
         nguard0 = len(child.guard)
         try:
-            run_body(cenv, src.value_at(I, j), recs)
+            run_body(cenv, value, recs)
         except ContinueEx:
             pass
         except BreakEx:
@@ -428,8 +457,10 @@ def explore_body(I, src, run_body, acc_names, poisoned, env, want_updates=()):
         I.frozen_owner = saved_frozen
         I.call_depth = saved_depth
     if not jname:
-        return None, sterm, []
+        return None, sterm, [], []
     j = jname[0]
+    binds = bindl[0]
+    bound_names = set(c.decl().name() for c, _ in binds)
     # no child-local symbol may escape (it would be an unbound per-iteration existential)
     marker = ex.scope + "#"
     for bp in results:
@@ -440,12 +471,12 @@ def explore_body(I, src, run_body, acc_names, poisoned, env, want_updates=()):
         for v in bp.env_updates.values():
             exprs.extend(value_exprs(I, v))
         for nm in free_names(exprs):
-            if marker in nm and nm != j.decl().name():
+            if marker in nm and nm != j.decl().name() and nm not in bound_names:
                 raise Unsupported("loop body introduces a per-iteration unknown (%s): needs a contract/fold rule" % nm)
-    return j, sterm, results
+    return j, sterm, results, binds
 
 
-def apply_paths(I, src, sterm, j, results, acc_boxes, env, target_names, note=""):
+def apply_paths(I, src, sterm, j, results, acc_boxes, env, target_names, note="", binds=()):
     """Continue the parent path after a body exploration."""
     ctx = I.ctx
     if j is None:
@@ -455,7 +486,18 @@ def apply_paths(I, src, sterm, j, results, acc_boxes, env, target_names, note=""
     breaking = [bp for bp in results if bp.kind == "break"]
 
     def inst(expr, idx):
+        if binds:
+            expr = z3.substitute(expr, *binds)
         return z3.substitute(expr, (j, to_z3(idx)))
+
+    def inst_value(v, idx):
+        if is_z3(v):
+            return inst(v, idx)
+        if isinstance(v, NT):
+            return NT(v.cls, [inst_value(x, idx) for x in v.vals])
+        if isinstance(v, tuple):
+            return tuple(inst_value(x, idx) for x in v)
+        return v
 
     # R-FORALL: the loop raises iff some index takes a raising path
     for bp in raising:
@@ -465,6 +507,19 @@ def apply_paths(I, src, sterm, j, results, acc_boxes, env, target_names, note=""
         ctx.assume(z3.Implies(b, inst(bp.guard, w)))
         g = bp.guard
         sterm.all_facts.append((z3.Not(b), (lambda elem, idx, g=g: z3.Not(inst(g, idx))), "no-raise"))
+        if src.kind == "adjzip" and src.term.etype is not None:
+            from . import listops
+            T = src.term
+            pa = [c for c, _ in binds[:src.n_a]]
+            pb = [c for c, _ in binds[src.n_a:]]
+
+            def adjfn(x, y, g=g, pa=pa, pb=pb):
+                pairs = list(zip(pa, [to_z3(p) for p in I.elem_parts(x)])) + \
+                    list(zip(pb, [to_z3(p) for p in I.elem_parts(y)]))
+                return z3.Not(z3.substitute(g, *pairs))
+            probe = adjfn(T.at(z3.Int("?a")), T.at(z3.Int("?b")))
+            if j.decl().name() not in free_names([probe]):
+                listops.add_adjacent_fact(I, T, z3.Not(b), adjfn, "no-raise")
         if ctx.decide(b, "loop%s raises %s" % (note, bp.exc.exc.cls.name)):
             raise Raise(bp.exc.exc, bp.exc.note)
     if breaking:
@@ -483,12 +538,11 @@ def apply_paths(I, src, sterm, j, results, acc_boxes, env, target_names, note=""
                 sterm.all_facts.append((b, (lambda elem, idx, gq=gq, k=k: z3.Implies(idx < k, z3.Not(inst(gq, idx)))),
                                         "before-found"))
             if ctx.decide(b, "loop%s breaks" % note):
-                pairs = [(j, k)]
                 for n, outs in bp.outs.items():
                     for o in outs:
-                        bm.list_append(I, acc_boxes[n], subst_value(I, o, pairs))
+                        bm.list_append(I, acc_boxes[n], inst_value(o, k))
                 for n, v in bp.env_updates.items():
-                    env.vars[n] = subst_value(I, v, pairs)
+                    env.vars[n] = inst_value(v, k)
                 # loop targets keep the values of the breaking iteration
                 return "broke"
         for n in target_names:
@@ -508,13 +562,13 @@ def apply_paths(I, src, sterm, j, results, acc_boxes, env, target_names, note=""
             raise Unsupported("abstracted loop appends non-element values")
         for p in paths:
             p.outs = [I.coerce_elem(o, etype) for o in p.outs]
-        fm = FM(I, sterm, j, paths, etype)
+        fm = core.mk_fm(I, sterm, j, paths, etype, binds)
         I.check_mutable(box)
         old = box.term
         if isinstance(old, Conc) and not old.items:
             box.term = fm
         else:
-            box.term = Concat(I, [old, fm], etype)
+            box.term = core.mk_concat(I, [old, fm], etype)
     for n in target_names:
         env.vars[n] = Poison("loop variable after an abstracted loop")
     return "done"
@@ -539,10 +593,10 @@ def abstract_for(I, st, env, it):
         I.assign(st.target, value, cenv)
         I.exec_block(body, cenv)
 
-    j, sterm, results = explore_body(I, src, run_body, accs, poisoned, env,
-                                     want_updates=assigned)
+    j, sterm, results, binds = explore_body(I, src, run_body, accs, poisoned, env,
+                                            want_updates=assigned)
     boxes = {n: env.lookup(n) for n in accs}
-    apply_paths(I, src, sterm, j, results, boxes, env, assigned, note="@L%d" % st.lineno)
+    apply_paths(I, src, sterm, j, results, boxes, env, assigned, note="@L%d" % st.lineno, binds=binds)
 
 
 # ----------------------------------------------------------------------- comprehensions
@@ -589,8 +643,8 @@ def eval_comprehension(I, node, env):
 
     box = I.new_list([])
     cenv.vars["$result"] = box
-    j, sterm, results = explore_body(I, src, run_body, ["$result"], [], cenv)
-    apply_paths(I, src, sterm, j, results, {"$result": box}, cenv, set(), note="@L%d" % node.lineno)
+    j, sterm, results, binds = explore_body(I, src, run_body, ["$result"], [], cenv)
+    apply_paths(I, src, sterm, j, results, {"$result": box}, cenv, set(), note="@L%d" % node.lineno, binds=binds)
     return box
 
 
@@ -613,8 +667,8 @@ def filter_value(I, fn, seq):
     from .interp import Env
     env = Env(I.modules[next(iter(I.modules))])
     box = I.new_list([])
-    j, sterm, results = explore_body(I, src, run_body, ["$result"], [], env)
-    apply_paths(I, src, sterm, j, results, {"$result": box}, env, set(), note="@filter")
+    j, sterm, results, binds = explore_body(I, src, run_body, ["$result"], [], env)
+    apply_paths(I, src, sterm, j, results, {"$result": box}, env, set(), note="@filter", binds=binds)
     return box
 
 
